@@ -66,22 +66,47 @@ Lemma cumulative_files_needed :
   map q_phase (y_reqs (yrun (yinit s1 pinned_order [pub_drop] [(false, 1)]) [1; 0; 0; 1])) = [QDone false 2 1 None].
 Proof. vm_compute. split; reflexivity. Qed.
 
-(* ... and so is "the subnets file contains the ClientConf generation": a file that does not parse
-   leaves the old set installed while main.go still hands the new ClientConf to the front ends *)
+(* a reload whose subnets file does not load: the handler aborts, nothing changes, every position of a
+   request among the handler's steps is answered from the old set - no hypothesis on the failing publication *)
 Definition pub_broken : pub := mkP (Some 2) 2 [1; 2] false.
-Lemma subnets_file_must_load :
-  chain_ok (r_gens s1) [pub_broken] = false /\
-  map q_phase (y_reqs (yrun (yinit s1 pinned_order [pub_broken] [(false, 1)]) [0; 0; 0; 0; 1; 1])) = [QDone false 1 2 (Some 2)].
+Lemma failed_reload_changes_nothing :
+  chain_ok (r_gens s1) [pub_broken] = true /\
+  map (fun sch => let y := yrun (yinit s1 pinned_order [pub_broken] [(false, 1); (false, 0)]) sch in (y_st y, map q_phase (y_reqs y)))
+      [[0; 0; 0; 0; 1; 1; 2; 2]; [1; 2; 0; 0; 0; 0; 1; 2]; [0; 0; 1; 2; 0; 0; 1; 2]] =
+  [ (s1, [QDone true 1 1 None; QDone true 1 1 (Some 1)]); (s1, [QDone true 1 1 None; QDone true 1 1 (Some 1)]);
+    (s1, [QDone true 1 1 None; QDone true 1 1 (Some 1)]) ].
 Proof. vm_compute. split; reflexivity. Qed.
 
-(* three reloads (a new generation, an unparsable ClientConf, a subnets-only change), API and DNS
+(* "log the failure and carry on" (main.go before the fix): the new ClientConf is handed to the front ends
+   although the old set is still installed; from then on every outdated API client is moved to a
+   generation the installed set lacks *)
+Definition y_noabort : sys := yrun (yinit s1 noabort_order [pub_broken] [(false, 1)]) [0; 0; 0; 0; 1; 1].
+Lemma continue_past_failure_fails :
+  yreach (yinit s1 noabort_order [pub_broken] [(false, 1)]) y_noabort /\
+  y_todo y_noabort = [] /\
+  map q_phase (y_reqs y_noabort) = [QDone false 1 2 (Some 2)] /\
+  mem (r_api (y_st y_noabort)) (r_gens (y_st y_noabort)) = false /\
+  handler_ok (r_gens s1) None (hprog noabort_order [pub_broken]) = false.
+Proof. split; [apply yrun_yreach|]. vm_compute. repeat split; reflexivity. Qed.
+
+Lemma noabort_order_refuted :
+  ~ (forall s pubs reqs y, mem (r_api s) (r_gens s) = true -> chain_ok (r_gens s) pubs = true ->
+       yreach (yinit s noabort_order pubs reqs) y ->
+       mem (r_api (y_st y)) (r_gens (y_st y)) = true).
+Proof.
+  intros H.
+  assert (false = true); [|discriminate].
+  exact (H s1 [pub_broken] [(false, 1)] y_noabort eq_refl eq_refl (yrun_yreach _ _)).
+Qed.
+
+(* four reloads (a new generation, an unparsable ClientConf, a new generation whose subnets file does not load, a subnets-only change), API and DNS
    requests of old, current and unknown generations: a run in which everything that counts is answered *)
-Definition pubs3 : list pub := [pub2; mkP None 9 [9] true; mkP (Some 2) 3 [1; 2] true].
+Definition pubs3 : list pub := [pub2; mkP None 9 [9] true; mkP (Some 7) 8 [7] false; mkP (Some 2) 3 [1; 2] true].
 Lemma three_reloads_hypothesis : chain_ok (r_gens s1) pubs3 = true.
 Proof. reflexivity. Qed.
 Definition y3 : sys :=
   yrun (yinit s1 pinned_order pubs3 [(false, 0); (false, 1); (true, 1); (false, 5)])
-       [1; 0; 0; 2; 1; 0; 0; 3; 0; 0; 0; 0; 4; 2; 3; 0; 0; 0; 0; 4].
+       [1; 0; 0; 2; 1; 0; 0; 3; 0; 0; 0; 0; 4; 0; 0; 0; 0; 2; 3; 0; 0; 0; 0; 4].
 Lemma three_reloads_run :
   y_todo y3 = [] /\ y_st y3 = mkR 3 [1; 2] 2 2 /\
   map q_phase (y_reqs y3) = [QDone true 2 1 (Some 1); QDone true 2 1 None; QDone true 2 1 (Some 2); QDone false 3 5 None].
